@@ -180,9 +180,10 @@ class DTWSettings:
         return settings
 
     def set_max_dist(self, s1, s2):
-        _, _, ival_fn = innerdistance.inner_dist_fns(self.inner_dist, use_ndim=self.use_ndim)
         if self.use_pruning:
-            self.adj_max_dist = ival_fn(ed.distance(s1, s2, inner_dist=self.inner_dist, use_ndim=self.use_ndim))
+            # No result/inner_val round trip (e.g., sqrt and square): the bound has to be
+            # at least the cost of the diagonal path
+            self.adj_max_dist = ed.distance_inner(s1, s2, inner_dist=self.inner_dist, use_ndim=self.use_ndim)
 
     def kwargs(self):
         return {
